@@ -368,6 +368,14 @@ class TAPParser:
     def __init__(self) -> None:
         self.seen_tests: T.Set[int] = set()
 
+    @staticmethod
+    def _int(s: str) -> int:
+        # int() refuses digit strings longer than sys.get_int_max_str_digits()
+        try:
+            return int(s)
+        except ValueError:
+            return sys.maxsize
+
     def parse_test(self, ok: bool, num: int, name: str, directive: T.Optional[str], explanation: T.Optional[str]) -> \
             T.Generator[T.Union['TAPParser.Test', 'TAPParser.Error'], None, None]:
         name = name.strip()
@@ -434,7 +442,7 @@ class TAPParser:
                     yield self.Error('unexpected test after late plan')
                     self.found_late_test = True
                 self.num_tests += 1
-                self.last_test = self.last_test + 1 if m.group(2) is None else int(m.group(2))
+                self.last_test = self.last_test + 1 if m.group(2) is None else self._int(m.group(2))
                 self.highest_test = max(self.highest_test, self.last_test)
                 self.seen_tests.add(self.last_test)
                 if self.plan and self.last_test > self.plan.num_tests:
@@ -449,7 +457,7 @@ class TAPParser:
                 if self.plan:
                     yield self.Error('more than one plan found')
                 else:
-                    num_tests = int(m.group(1))
+                    num_tests = self._int(m.group(1))
                     skipped = num_tests == 0
                     if m.group(2):
                         if m.group(2).upper().startswith('SKIP'):
@@ -475,7 +483,7 @@ class TAPParser:
                 if self.lineno != 1:
                     yield self.Error('version number must be on the first line')
                     return
-                self.version = int(m.group(1))
+                self.version = self._int(m.group(1))
                 if self.version < 13:
                     yield self.Error('version number should be at least 13')
                 else:
